@@ -1,0 +1,15 @@
+//go:build verif
+
+package io
+
+// VerifHook, when set (before any stream is used), is called at the protocol
+// points of the block hand-off (see verif_points.go). ctr points to the shared
+// block id of the stream. The hook may yield, sleep, record, or panic to
+// inject a task failure. Only compiled with the build tag 'verif'.
+var VerifHook func(side, point int, id int32, ctr *int32)
+
+func verifAt(side, point int, id int32, ctr *int32) {
+	if h := VerifHook; h != nil {
+		h(side, point, id, ctr)
+	}
+}
